@@ -744,4 +744,75 @@ theorem den_restrict (hwf : WF d) (hcl : Closed d sel gsel) (n v : Nat) (p : Per
 
 end
 
+section
+variable {d : Decl} {sel gsel : List Nat} {armed : List Nat}
+
+theorem mem_getD_mem (l : List Nat) (i : Nat) (h : i < l.length) : l.getD i 0 ∈ l := by
+  simp [List.getD_eq_getElem?_getD, List.getElem?_eq_getElem h]
+
+/-- a reordering of the whole population is a closed selection -/
+theorem closed_of_isPerm (hwf : WF d) (hp : IsPerm d sel gsel) : Closed d sel gsel := by
+  obtain ⟨h1, h2⟩ := hp
+  refine ⟨?_, ?_, ?_, ?_, ?_⟩
+  · intro i hi; simpa using (h1.mem_iff).1 hi
+  · intro g hg; simpa using (h2.mem_iff).1 hg
+  · exact (h1.nodup_iff).2 List.nodup_range
+  · exact (h2.nodup_iff).2 List.nodup_range
+  · intro i hi
+    have hg : d.mem.getD i 0 < d.nG := hwf.2.1 _ (mem_getD_mem d.mem i (by rw [hwf.1]; exact hi))
+    constructor
+    · intro _; exact (h2.mem_iff).2 (by simpa using hg)
+    · intro _; exact (h1.mem_iff).2 (by simpa using hi)
+
+/-- reading a vector along a permutation of its positions permutes its values -/
+theorem reindex_perm (l : List Nat) (x : Val) (h : l.Perm (List.range x.length)) : (reindex l x).Perm x := by
+  have := List.Perm.map (fun i => x.getD i 0) h
+  have h2 := reindex_range x
+  unfold reindex at h2 ⊢
+  rw [h2] at this
+  exact this
+
+theorem mem_complement (n : Nat) (l : List Nat) (i : Nat) : i ∈ complement n l ↔ i < n ∧ i ∉ l := by
+  simp [complement]
+
+theorem complement_increasing (n : Nat) (l : List Nat) : Increasing (complement n l) :=
+  List.Pairwise.sublist List.filter_sublist List.pairwise_lt_range
+
+/-- what is left when a closed part is taken out is closed -/
+theorem complement_closed (hwf : WF d) (hcl : Closed d sel gsel) :
+    Closed d (complement d.nP sel) (complement d.nG gsel) := by
+  refine ⟨?_, ?_, ?_, ?_, ?_⟩
+  · intro i hi; exact ((mem_complement _ _ _).1 hi).1
+  · intro g hg; exact ((mem_complement _ _ _).1 hg).1
+  · exact List.nodup_range.sublist List.filter_sublist
+  · exact List.nodup_range.sublist List.filter_sublist
+  · intro i hi
+    have hg : d.mem.getD i 0 < d.nG := hwf.2.1 _ (mem_getD_mem d.mem i (by rw [hwf.1]; exact hi))
+    rw [mem_complement, mem_complement]
+    have := hcl.2.2.2.2 i hi
+    constructor
+    · rintro ⟨_, h⟩; exact ⟨hg, fun hc => h (this.2 hc)⟩
+    · rintro ⟨_, h⟩; exact ⟨hi, fun hc => h (this.1 hc)⟩
+
+/-- the part simulated alone is a well-formed declaration -/
+theorem wf_restrict (hwf : WF d) (hcl : Closed d sel gsel) : WF (restrict d sel gsel) := by
+  refine ⟨by simp [restrict], ?_, hwf.2.2.1, ?_⟩
+  · intro g hg
+    simp only [restrict, List.mem_map] at hg ⊢
+    obtain ⟨i, hi, rfl⟩ := hg
+    exact posIn_lt gsel _ ((hcl.2.2.2.2 i (hcl.1 i hi)).1 hi)
+  · intro i hi vv hvv
+    simp only [restrict, List.mem_map] at hi
+    obtain ⟨i0, hi0, rfl⟩ := hi
+    have hvv0 : d.vars[i0.1]? = some vv := hvv
+    simp only [selVar, hvv0, reindex_length, size_restrict]
+
+/-- sums of vectors (`calculate_add`) commute with a selection -/
+theorem vecAdd_reindex (l : List Nat) (x y : Val) (n : Nat) (hl : ∀ i ∈ l, i < n) (hx : x.length = n) (hy : y.length = n) :
+    vecAdd (reindex l x) (reindex l y) = reindex l (vecAdd x y) := by
+  unfold vecAdd
+  exact (reindex_zipWith _ l x y (by rw [hx]; exact hl) (by rw [hy]; exact hl)).symm
+
+end
+
 end OFCore.Equivariance
